@@ -843,6 +843,158 @@ impl<'a, MutexType, T> Future for ChannelSendFuture<'a, MutexType, T> {''',
                     }''',
      'new': '''                    let _ = entry.task.take();''',
      'expect': {'C15': ['C15.R2']}},
+    # ---------------------------------------------------------------- C17
+    {'name': 'shared-recv-poll-no-restore', 'file': 'src/channel/channel_future.rs',
+     'old': '''                if poll_res.is_ready() {
+                    // A value was available
+                    mut_self.channel = None;
+                } else {
+                    mut_self.channel = Some(channel)
+                }
+
+                poll_res
+            }
+        }
+
+        impl<MutexType, T> FusedFuture for ChannelReceiveFuture<MutexType, T> {''',
+     'new': '''                if poll_res.is_ready() {
+                    // A value was available
+                    mut_self.channel = None;
+                }
+
+                poll_res
+            }
+        }
+
+        impl<MutexType, T> FusedFuture for ChannelReceiveFuture<MutexType, T> {''',
+     'expect': {'C17': ['C17.R1']}},
+    {'name': 'mutex-is-terminated-inverted', 'file': 'src/sync/mutex.rs',
+     'old': '''        self.mutex.is_none()''',
+     'new': '''        self.mutex.is_some()''',
+     'expect': {'C17': ['C17.R2']}},
+    {'name': 'event-poll-clears-handle-early', 'file': 'src/sync/manual_reset_event.rs',
+     'old': '''        if let Poll::Ready(()) = poll_res {
+            // The event was set
+            mut_self.event = None;
+        }''',
+     'new': '''        mut_self.event = None;''',
+     'expect': {'C17': ['C17.R1']}},
+    {'name': 'channel-stream-restores-on-end', 'file': 'src/channel/mpmc.rs',
+     'old': '''                    // If the channel was terminated, we let it drop.
+                    if let Poll::Ready(None) = &poll {
+                        return poll;
+                    }''',
+     'new': '''''',
+     'expect': {'C17': ['C17.R5']}},
+    {'name': 'semaphore-poll-keeps-handle-on-ready', 'file': 'src/sync/semaphore.rs',
+     'old': '''                // The semaphore was acquired.
+                mut_self.semaphore = None;''',
+     'new': '''                // The semaphore was acquired.''',
+     'expect': {'C17': ['C17.R1']}},
+    {'name': 'timer-poll-no-expect', 'file': 'src/timer/timer.rs',
+     'old': '''        let timer =
+            mut_self.timer.expect("polled TimerFuture after completion");
+
+        let poll_res = unsafe { timer.try_wait(&mut mut_self.wait_node, cx) };''',
+     'new': '''        let timer = match mut_self.timer { Some(t) => t, None => return Poll::Ready(()) };
+
+        let poll_res = unsafe { timer.try_wait(&mut mut_self.wait_node, cx) };''',
+     'expect': {'C17': ['C17.R3', 'C17.R1']}},
+    {'name': 'send-cancel-keeps-handle', 'file': 'src/channel/channel_future.rs',
+     'old': '''    pub fn cancel(&mut self) -> Option<T> {
+        let channel = self.channel.take();
+        match channel {
+            None => None,
+            Some(channel) => {
+                channel.remove_send_waiter(&mut self.wait_node);
+                self.wait_node.value.take()
+            }
+        }
+    }
+}
+
+impl<'a, MutexType, T> Future for ChannelSendFuture<'a, MutexType, T> {''',
+     'new': '''    pub fn cancel(&mut self) -> Option<T> {
+        let channel = self.channel;
+        match channel {
+            None => None,
+            Some(channel) => {
+                channel.remove_send_waiter(&mut self.wait_node);
+                self.wait_node.value.take()
+            }
+        }
+    }
+}
+
+impl<'a, MutexType, T> Future for ChannelSendFuture<'a, MutexType, T> {''',
+     'expect': {'C17': ['C17.R4']}},
+    {'name': 'shared-stream-terminates-on-item', 'file': 'src/channel/mpmc.rs',
+     'old': '''                    if let Poll::Ready(None) = &poll {
+                        // Safety: This is safe because `is_terminated` is never''',
+     'new': '''                    if let Poll::Ready(_) = &poll {
+                        // Safety: This is safe because `is_terminated` is never''',
+     'expect': {'C17': ['C17.R5']}},
+    {'name': 'shared-stream-keeps-future', 'file': 'src/channel/mpmc.rs',
+     'old': '''                if poll.is_ready() {
+                    pin_fut.set(None);
+''',
+     'new': '''                if let Poll::Ready(None) = &poll {
+                    pin_fut.set(None);
+''',
+     'expect': {'C17': ['C17.R5']}},
+    # ---------------------------------------------------------------- C18
+    {'name': 'mpmc-close-collects-wakers-in-vec', 'file': 'src/channel/mpmc.rs',
+     'old': '''fn wake_send_waiters<T>(waiters: &mut LinkedList<SendWaitQueueEntry<T>>) {''',
+     'new': '''#[cfg(feature = "alloc")]
+fn wake_send_waiters<T>(waiters: &mut LinkedList<SendWaitQueueEntry<T>>) {
+    let mut v = alloc::vec::Vec::new();
+    waiters.reverse_drain(|waiter| {
+        if let Some(handle) = waiter.task.take() {
+            v.push(handle);
+        }
+        waiter.state = SendPollState::Unregistered;
+    });
+    for handle in v {
+        handle.wake();
+    }
+}
+
+#[cfg(not(feature = "alloc"))]
+fn wake_send_waiters<T>(waiters: &mut LinkedList<SendWaitQueueEntry<T>>) {''',
+     'expect': {'C18': ['C18.B']}},
+    {'name': 'shared-semaphore-poll-boxes', 'file': 'src/sync/semaphore.rs',
+     'old': '''            let semaphore = mut_self.semaphore.take().expect(
+                "polled GenericSharedSemaphoreAcquireFuture after completion",
+            );''',
+     'new': '''            let semaphore = mut_self.semaphore.take().expect(
+                "polled GenericSharedSemaphoreAcquireFuture after completion",
+            );
+            let _scratch = alloc::boxed::Box::new(mut_self.wait_node.required_permits);''',
+     'expect': {'C18': ['C18.B']}},
+    {'name': 'fixed-heap-buf-unbounded-push', 'file': 'src/buffer/ring_buffer.rs',
+     'old': '''        fn push(&mut self, value: Self::Item) {
+            assert!(self.can_push());
+            self.buffer.push_back(value);''',
+     'new': '''        fn push(&mut self, value: Self::Item) {
+            self.buffer.push_back(value);''',
+     'expect': {'C18': ['C18.B3']}},
+    {'name': 'fixed-heap-buf-cap-larger-than-allocation', 'file': 'src/buffer/ring_buffer.rs',
+     'old': '''            FixedHeapBuf {
+                buffer: VecDeque::with_capacity(cap),
+                cap,
+            }''',
+     'new': '''            FixedHeapBuf {
+                buffer: VecDeque::with_capacity(cap / 2),
+                cap,
+            }''',
+     'expect': {'C18': ['C18.B3']}},
+    {'name': 'std-clock-now-formats', 'file': 'src/timer/clock.rs',
+     'old': '''            let elapsed = Instant::now() - self.start;
+            elapsed.as_millis() as u64''',
+     'new': '''            let elapsed = Instant::now() - self.start;
+            let s = std::format!("{}", elapsed.as_millis());
+            s.parse::<u64>().unwrap_or(0)''',
+     'expect': {'C18': ['C18.B']}},
 ]
 
 BENIGN = [
